@@ -108,14 +108,15 @@ theorem safe_blank (h1 : ∀ t ∈ S, t.contains 32 = true → t = [46, 32]) (hd
     | cons b w'' => simp at this
 
 /-- what may follow a complete term or type text: the end, a blank, a closing bracket, a comma -/
-def Follow (rest : List Nat) : Prop := rest = [] ∨ ∃ c r, rest = c :: r ∧ (isWs c = true ∨ c = 41 ∨ c = 44 ∨ c = 58 ∨ c = 46)
+def Follow (rest : List Nat) : Prop := rest = [] ∨ ∃ c r, rest = c :: r ∧ (isWs c = true ∨ c = 41 ∨ c = 44 ∨ c = 58 ∨ c = 46 ∨ c = 125)
 
 theorem follow_blank (r : List Nat) : Follow (32 :: r) := Or.inr ⟨32, r, rfl, Or.inl (by decide)⟩
 theorem follow_ws {c : Nat} (hc : isWs c = true) (r : List Nat) : Follow (c :: r) := Or.inr ⟨c, r, rfl, Or.inl hc⟩
 theorem follow_rp (r : List Nat) : Follow (41 :: r) := Or.inr ⟨41, r, rfl, Or.inr (Or.inl rfl)⟩
 theorem follow_comma (r : List Nat) : Follow (44 :: r) := Or.inr ⟨44, r, rfl, Or.inr (Or.inr (Or.inl rfl))⟩
 theorem follow_colon (r : List Nat) : Follow (58 :: r) := Or.inr ⟨58, r, rfl, Or.inr (Or.inr (Or.inr (Or.inl rfl)))⟩
-theorem follow_dot (r : List Nat) : Follow (46 :: r) := Or.inr ⟨46, r, rfl, Or.inr (Or.inr (Or.inr (Or.inr rfl)))⟩
+theorem follow_dot (r : List Nat) : Follow (46 :: r) := Or.inr ⟨46, r, rfl, Or.inr (Or.inr (Or.inr (Or.inr (Or.inl rfl))))⟩
+theorem follow_rbrace (r : List Nat) : Follow (125 :: r) := Or.inr ⟨125, r, rfl, Or.inr (Or.inr (Or.inr (Or.inr (Or.inr rfl))))⟩
 
 theorem ws_not_idChar {c : Nat} (h : isWs c = true) : isIdChar c = false := by
   simp only [isWs, isIdChar, isLetter, isDigitC] at *
@@ -124,15 +125,16 @@ theorem ws_not_idChar {c : Nat} (h : isWs c = true) : isIdChar c = false := by
 
 theorem Follow.notId {rest : List Nat} (h : Follow rest) : NotIdNext rest := by
   intro c r hr
-  rcases h with rfl | ⟨c', r', rfl, hc | rfl | rfl | rfl | rfl⟩
+  rcases h with rfl | ⟨c', r', rfl, hc | rfl | rfl | rfl | rfl | rfl⟩
   · cases hr
   · cases hr; exact ws_not_idChar hc
   · cases hr; decide
   · cases hr; decide
   · cases hr; decide
   · cases hr; decide
+  · cases hr; decide
 
-theorem safe_rp (hrp : ∀ t ∈ S, [41].isPrefixOf t = true → t = [41] ∨ isWs ((t.drop 1).headD 0) = false ∧ (t.drop 1).headD 0 ≠ 41 ∧ (t.drop 1).headD 0 ≠ 44 ∧ (t.drop 1).headD 0 ≠ 58 ∧ (t.drop 1).headD 0 ≠ 46)
+theorem safe_rp (hrp : ∀ t ∈ S, [41].isPrefixOf t = true → t = [41] ∨ isWs ((t.drop 1).headD 0) = false ∧ (t.drop 1).headD 0 ≠ 41 ∧ (t.drop 1).headD 0 ≠ 44 ∧ (t.drop 1).headD 0 ≠ 58 ∧ (t.drop 1).headD 0 ≠ 46 ∧ (t.drop 1).headD 0 ≠ 125)
     {rest : List Nat} (hf : Follow rest) : SafeAfter S [41] rest := by
   intro m hm h
   rcases hf with rfl | ⟨c, r, rfl, hcw⟩
@@ -144,14 +146,27 @@ theorem safe_rp (hrp : ∀ t ∈ S, [41].isPrefixOf t = true → t = [41] ∨ is
     simp only [List.contains_eq_mem, List.cons_append, List.nil_append, decide_eq_true_eq] at hmem
     have := hrp _ hmem (by simp [List.isPrefixOf])
     simp only [List.cons.injEq, List.drop_succ_cons, List.drop_zero, List.headD_cons] at this
-    rcases this with h0 | ⟨h1, h2, h3, h4, h5⟩
+    rcases this with h0 | ⟨h1, h2, h3, h4, h5, h6⟩
     · simp at h0
-    · rcases hcw with hw | rfl | rfl | rfl | rfl
+    · rcases hcw with hw | rfl | rfl | rfl | rfl | rfl
       · rw [hw] at h1; cases h1
       · exact h2 rfl
       · exact h3 rfl
       · exact h4 rfl
       · exact h5 rfl
+      · exact h6 rfl
+
+/-- a terminal that no other terminal starts with is read whatever follows -/
+theorem safe_only {w : List Nat} (hd : ∀ t ∈ S, w.isPrefixOf t = true → t = w) (rest : List Nat) :
+    SafeAfter S w rest := by
+  intro m hm h
+  have hmem : ((w ++ rest).take m) ∈ S := by simpa using h.2
+  have hpre : w.isPrefixOf ((w ++ rest).take m) = true := by
+    rw [take_append_gt _ _ m hm]; simp [List.isPrefixOf_iff_prefix]
+  have := hd _ hmem hpre
+  have hl := h.1
+  rw [this] at hl
+  omega
 
 theorem safe_dot (hd : ∀ t ∈ S, [46, 32].isPrefixOf t = true → t = [46, 32]) (rest : List Nat) :
     SafeAfter S [46, 32] rest := by
@@ -195,6 +210,19 @@ theorem ts_head {c : Nat} (r : List Nat) (hc : isIdStart c = true ∨ isDigitC c
       rw [hu.1]
       unfold startsOK
       rcases hc with h | h | h <;> simp [h]
+
+theorem ts_lbrace (r : List Nat) : TextStart T (123 :: r) := by
+  intro u k hu hk
+  cases u with
+  | nil => cases k <;> rfl
+  | cons y u =>
+    cases k with
+    | zero => simp at hk
+    | succ k =>
+      rw [List.cons_prefix_cons] at hu
+      rw [hu.1]
+      unfold startsOK
+      simp
 
 theorem ts_binder {p : List Nat} (hp : p ∈ T.binderTxts) (q : List Nat) : TextStart T (p ++ q) := by
   intro u k hu hk
